@@ -1,21 +1,23 @@
 """Copy confirmed seeded changes from /tmp/seed/out-Cxx into /verif/seeded/<id>/ (patch.diff, demo.py, notes.md, meta.json)."""
 import json, os, re, shutil, subprocess, sys
+SRC = sys.argv[1] if len(sys.argv) > 1 else '/tmp/seed'
+OFFSET = int(sys.argv[2]) if len(sys.argv) > 2 else 0
 ROOT = os.path.dirname(os.path.dirname(os.path.abspath(__file__)))
 head = subprocess.run(['git', '-C', '/repo', 'rev-parse', 'HEAD'], capture_output=True, text=True).stdout.strip()
 props = {json.loads(l)['id']: json.loads(l) for l in open(os.path.join(ROOT, 'properties.jsonl'))}
 for pid in sorted(props):
     for i in (1, 2):
-        src = '/tmp/seed/out-%s' % pid
+        src = '%s/out-%s' % (SRC, pid)
         patch, demo, notes = ('%s/change_%d.diff' % (src, i), '%s/demo_%d.py' % (src, i), '%s/notes_%d.md' % (src, i))
         if not os.path.exists(patch):
             continue
-        sid = '%s-%d' % (pid, i)
+        sid = '%s-%d' % (pid, i + OFFSET)
         dst = os.path.join(ROOT, 'seeded', sid)
         os.makedirs(dst, exist_ok=True)
         shutil.copyfile(patch, dst + '/patch.diff')
         text = open(demo).read()
         # demos written for a fixed scratch path: accept any checkout
-        text = re.sub(r'assert os\.path\.dirname\(kmip\.__file__\)\.startswith\("/tmp/seed/C\d+"\), \\\n\s+[^\n]+\n',
+        text = re.sub(r'assert os\.path\.dirname\(kmip\.__file__\)\.startswith\("/tmp/seed2?/C\d+"\), \\\n\s+[^\n]+\n',
                       'pass  # (path assertion of the scratch worktree removed)\n', text)
         open(dst + '/demo.py', 'w').write(text)
         if os.path.exists(notes):
@@ -25,7 +27,7 @@ for pid in sorted(props):
         n = open(notes).read() if os.path.exists(notes) else ''
         meta.update({
             'id': sid, 'property': pid, 'title': props[pid]['title'],
-            'origin': 'independent sub-agent given only the property text and a scratch worktree of /repo',
+            'origin': 'independent sub-agent given only the property text and a scratch worktree of /repo (round %d)' % (2 if OFFSET else 1),
             'base_commit': head,
             'files_touched': sorted(set(re.findall(r'^\+\+\+ b/(\S+)', open(patch).read(), re.M))),
             'needs_to_manifest': (re.search(r'(?is)(manifest|trigger|needs)[^\n]*\n(.{0,900})', n).group(0)[:900] if re.search(r'(?i)manifest|trigger|needs', n) else n[:600]),
